@@ -31,9 +31,26 @@ Proof. exact refuted_without_clamp. Qed.
 
 (* healing: dialing happens only between ReconnBegin and the swap; the swap needs a clean table and puts the link
    back up, after which requests are registered and served again (C02/C03 on the new connection) *)
-Theorem c05_dial_only_while_redialing : forall s n s', step repaired_c s (RedialAttempt n) = Some s' -> lnk s = Redial /\ s' = s.
+Theorem c05_dial_only_while_redialing : forall s n s', step repaired_c s (RedialAttempt n) = Some s' ->
+  lnk s = Redial /\ n = redial_n s /\ slept s = false /\ s' = set_dial s (S n) true.
 Proof.
-  intros s n s' H. unfold step in H. unfold is_redial in H. destruct (lnk s); try discriminate. injection H as <-. auto.
+  intros s n s' H. unfold step in H. unfold is_redial in H. destruct (lnk s); try discriminate. cbn [andb] in H.
+  destruct (Nat.eqb n (redial_n s)) eqn:En; [|discriminate]. destruct (slept s) eqn:Es; [discriminate|]. injection H as <-.
+  apply Nat.eqb_eq in En. auto.
+Qed.
+
+(* redial attempts are spaced by the backoff, never a busy loop: within an outage a dial is enabled only after the
+   goroutine has announced the backoff sleep of that attempt (redial.attempt precedes time.Sleep(backoff.next(n)) and the
+   dial), attempts are numbered from 0 and each announcement is followed by exactly one dial *)
+Theorem c05_dial_needs_backoff : forall s ok s', step repaired_c s (RedialDialed ok) = Some s' -> lnk s = Redial ->
+  slept s = true /\ slept s' = false /\ redial_n s' = redial_n s.
+Proof.
+  intros s ok s' H L. unfold step in H. rewrite L in H. destruct (slept s); [|discriminate]. injection H as <-. auto.
+Qed.
+
+Theorem c05_attempts_from_zero : forall s s', step repaired_c s ReconnBegin = Some s' -> redial_n s' = 0%nat /\ slept s' = false.
+Proof.
+  intros s s' H. unfold step in H. destruct (holding s); [discriminate|]. destruct (is_up s); [|discriminate]. injection H as <-. auto.
 Qed.
 
 Theorem c05_swap_heals : forall s s', step repaired_c s RedialSwap = Some s' ->
@@ -89,6 +106,8 @@ Print Assumptions c05_backoff_bounds.
 Print Assumptions c05_backoff_monotone.
 Print Assumptions c05_backoff_refuted_v0.
 Print Assumptions c05_dial_only_while_redialing.
+Print Assumptions c05_dial_needs_backoff.
+Print Assumptions c05_attempts_from_zero.
 Print Assumptions c05_swap_heals.
 Print Assumptions c05_no_reconnect_never_dials.
 Print Assumptions c05_retry_never_surfaces_connerr.
